@@ -288,10 +288,9 @@ impl<'a, F: Spill> ConvergenceMap<'a, F> {
         Block::load_from_bytes(&buf, num_entries)
     }
 
-    /// Load a spilled block into memory, evicting the LRU block.
-    fn load_block_from_disk(&mut self, root_idx: usize) -> Result<usize, ClientError> {
-        let loaded = self.read_block_from_disk(root_idx)?;
-
+    /// Install a block read from disk (root entry `root_idx`) in memory,
+    /// evicting the LRU block.
+    fn install_block(&mut self, root_idx: usize, loaded: Block) -> Result<usize, ClientError> {
         // Remove from root index — data is now in memory.
         self.storage.root.swap_remove(root_idx);
 
@@ -405,15 +404,17 @@ impl<'a, F: Spill> ConvergenceMap<'a, F> {
             while ri < self.storage.root.len() {
                 let node = self.storage.root[ri];
                 if location.max_cut >= node.min_max_cut && location.max_cut <= node.max_max_cut {
-                    // Load block into memory (removes root[ri] via swap_remove).
-                    let bi = self.load_block_from_disk(ri)?;
-                    if let Some(ei) = self.storage.blocks[bi].find(location) {
+                    // Search the block before giving it a memory slot: a block
+                    // that does not hold the location must not evict another
+                    // one, or blocks with overlapping ranges evict each other
+                    // forever.
+                    let block = self.read_block_from_disk(ri)?;
+                    if let Some(ei) = block.find(location) {
+                        let bi = self.install_block(ri, block)?;
                         return self.consume_entry(bi, ei);
                     }
-                    // Don't increment ri — swap_remove moved a new entry here.
-                } else {
-                    ri = ri.checked_add(1).assume("ri must not overflow")?;
                 }
+                ri = ri.checked_add(1).assume("ri must not overflow")?;
             }
         }
 
